@@ -10,7 +10,7 @@ import os
 import shutil
 
 from .. import gen_hist as GH, runner
-from ..framework import ALL_SCHEMAS, family
+from ..framework import DIR_NAME_POOL, dir_name, ALL_SCHEMAS, family
 
 LEVEL = "exploration"
 RULE = ("on-disk libraries on all 18 versions populated by mixed histories (2+ richly described tracks, single-field "
@@ -56,8 +56,9 @@ def generic_site(p):
     return p
 
 
-def make_case(cid, rng, schema, root, n_ops, every):
-    d = os.path.join(root, cid)
+def make_case(cid, rng, schema, root, n_ops, every, name_k=0):
+    from ..framework import dir_name
+    d = os.path.join(root, dir_name(cid, name_k))
     ops, metas = GH.gen_library_history(rng, schema, n_ops)
     from ..framework import is_v2
     full = [{"op": "lib_create" if is_v2(schema) else "create", "schema": schema, "dir": d}]
@@ -183,7 +184,7 @@ def decision_cases(root):
     """create_or_load / exists on an empty directory, for every version."""
     cases = []
     for i, schema in enumerate(ALL_SCHEMAS):
-        d = os.path.join(root, "dec%d" % i)
+        d = os.path.join(root, dir_name("dec%d" % i, i))
         ops = [{"op": "exists", "dir": d},
                {"op": "create_or_load", "schema": schema, "dir": d},
                {"op": "exists", "dir": d},
@@ -239,7 +240,11 @@ def run(ctx):
         for schema in ALL_SCHEMAS:
             for k in range(per):
                 every = 1 if (ctx.tier != "quick" and k % 10 == 0) else 3
-                cases.append(make_case("d%d" % n, ctx.rng, schema, root, 18 + (k % 3) * 6, every))
+                # every other library lives in a directory whose name has characters special to URIs, SQL or shells
+                name_k = (n // 2) if n % 2 else 0
+                cases.append(make_case("d%d" % n, ctx.rng, schema, root, 18 + (k % 3) * 6, every, name_k))
+                if name_k:
+                    ctx.bump_in("directory_name_shapes", DIR_NAME_POOL[name_k % len(DIR_NAME_POOL)].format("NAME")[:24])
                 n += 1
         dec = decision_cases(root)
         for c in cases + dec:
